@@ -575,3 +575,10 @@ SPECS["C06"]["level_text"] += ". Added: Traversable.children hands a freshly rea
 # C08: the sample-reversed view for widths OTHER than the proved 1, 2, 4 (24-bit samples, 24-bit stereo frames): bounded stand-in on the real class
 SPECS["C08"]["bounded"] += [("contracts.util_stream", "smpl_extract.util.stream:StreamReversed.read"), ("contracts.util_stream", "smpl_extract.util.stream:StreamReversed.seek")]
 SPECS["C08"]["level_text"] += ". BOUNDED for the reversed view with sample widths 3, 5, 6 (the general-width contract is assumed, not proved): every position x size x cursor of views of 1..3 samples"
+
+# C11 / C16: the module-level directory adapter is left as it was by a parse (it serves every partition); image-level interleavings
+for _p in ("C11", "C16"):
+    SPECS[_p]["contracts"] += ["smpl_extract.akai.file_entry:FileEntriesAdapter._parse#shared-adapter"]
+SPECS["C11"]["bounded"].append(("contracts.e2e_more", "bounded:image_stream_interleavings"))
+SPECS["C11"]["level_text"] += (". Added: the shared (module-level) AKAI directory adapter keeps its table expression across a parse (frame of FileEntriesAdapter._parse); BOUNDED at image level: "
+                               "sample streams of a two-partition AKAI image read in interleaved blocks with lazy listings in between")
